@@ -8,9 +8,135 @@
   `AgreesOn E src`, sampled by the `c32.*` correspondence ops, never an axiom.
 -/
 import VrlProofs.Lemmas.C32
+import VrlProofs.Lemmas.C32Cycle
 
 namespace C32
 open Grok Rx
+
+/-! ## (i) alias resolution terminates and rejects exactly the reachable cycles
+
+  `parse_grok_rule` expands alias definitions depth first; `alias_stack` (`Ctx.stack`) is the path
+  from the rule to the definition being expanded. `Walk P aliases text w` is a walk `w` of the
+  reference graph that starts at a placeholder of `text`; `HasCycleFrom` = some walk repeats a name. -/
+
+/-- invariant of a successful expansion from the stack `c.stack`: every walk that starts in the
+    expanded text avoids the stack and never repeats a name. -/
+theorem expansion_ok_walks (P : Prims) (aliases : List (Str × Str)) :
+    ∀ (n : Nat) (text : Str) (c c' : Ctx), parseRuleF P aliases n text c = .ok c' →
+      ∀ w, Walk P aliases text w → (∀ a ∈ w, a ∉ c.stack) ∧ w.Nodup := by
+  intro n
+  induction n with
+  | zero => intro text c c' h; simp [parseRuleF] at h
+  | succ n ih =>
+    intro text c c' h w hw
+    simp only [parseRuleF] at h
+    have hk := keepsStack_parseRuleF P aliases n
+    obtain ⟨_, hrefs⟩ := resolvePieces_ok hk _ _ _ h
+    cases hw with
+    | one ha =>
+      obtain ⟨hn, _⟩ := hrefs _ ha
+      exact ⟨by simpa using hn, by simp⟩
+    | @cons _ a d w' ha hd hw' =>
+      obtain ⟨hn, d', cout, hd', cin, hcin, hrun⟩ := hrefs _ ha
+      rw [hd] at hd'; injection hd' with hd'; subst hd'
+      obtain ⟨havoid, hnodup⟩ := ih _ _ _ hrun w' hw'
+      rw [hcin] at havoid
+      constructor
+      · intro b hb
+        rcases List.mem_cons.mp hb with rfl | hb'
+        · exact hn
+        · have := havoid b hb'
+          simp at this; exact this.1
+      · refine List.nodup_cons.mpr ⟨?_, hnodup⟩
+        intro hmem
+        have := havoid a hmem
+        simp at this
+
+/-- invariant of a circular-dependency error: a walk from the expanded text runs into a name that
+    is on the stack or earlier on the walk, and the reported name is the first of stack ++ walk. -/
+theorem expansion_circular_walk (P : Prims) (aliases : List (Str × Str)) :
+    ∀ (n : Nat) (text : Str) (c : Ctx) (x : Str), parseRuleF P aliases n text c = .err (.circular x) →
+      ∃ w pre last, Walk P aliases text w ∧ w = pre ++ [last] ∧ last ∈ c.stack ++ pre ∧
+        x = (c.stack ++ w).headD [] := by
+  intro n
+  induction n with
+  | zero => intro text c x h; simp [parseRuleF] at h
+  | succ n ih =>
+    intro text c x h
+    simp only [parseRuleF] at h
+    have hk := keepsStack_parseRuleF P aliases n
+    obtain ⟨a, ha, d, hd, hcase⟩ := resolvePieces_circular hk _ _ _ h
+    rcases hcase with ⟨hmem, hx⟩ | ⟨_, cin, hcin, hrun⟩
+    · refine ⟨[a], [], a, Walk.one ha, rfl, by simpa using hmem, ?_⟩
+      rw [headD_append_of_mem _ _ _ a hmem]; exact hx
+    · obtain ⟨w', pre', last', hw', hweq, hlast, hx⟩ := ih _ _ _ hrun
+      refine ⟨a :: w', a :: pre', last', Walk.cons ha hd hw', by simp [hweq], ?_, ?_⟩
+      · rw [hcin] at hlast; simpa [List.append_assoc] using hlast
+      · rw [hcin] at hx; simpa [List.append_assoc] using hx
+
+/-- the expansion never exhausts its recursion bound while fewer aliases are off the stack than
+    fuel is left. -/
+theorem expansion_no_fuel (P : Prims) (aliases : List (Str × Str)) :
+    ∀ (n : Nat) (text : Str) (c : Ctx), remaining aliases c.stack < n →
+      parseRuleF P aliases n text c ≠ .fuel := by
+  intro n
+  induction n with
+  | zero => intro text c h; omega
+  | succ n ih =>
+    intro text c hlt h
+    simp only [parseRuleF] at h
+    have hk := keepsStack_parseRuleF P aliases n
+    obtain ⟨a, _, d, hd, hn, cin, hcin, hrun⟩ := resolvePieces_fuel hk _ _ h
+    have := remaining_lt hd hn
+    exact ih d cin (by rw [hcin]; omega) hrun
+
+/-- (i-a) **termination**: the recursion through alias definitions is bounded by the number of
+    aliases — the model's recursion bound `aliases.length + 1` is never exhausted, whatever the
+    rule and the definitions (cyclic or not). -/
+theorem parseRule_terminates (P : Prims) (aliases : List (Str × Str)) (rule : Str) :
+    parseRuleF P aliases (aliases.length + 1) rule Ctx.empty ≠ .fuel :=
+  expansion_no_fuel P aliases _ rule Ctx.empty (by
+    have := remaining_le aliases Ctx.empty.stack
+    omega)
+
+/-- (i-b) an accepted rule has no reachable cycle: **cyclic alias definitions are rejected when the
+    rule is compiled** (with the circular-dependency error or with an earlier error). -/
+theorem accepted_acyclic (P : Prims) (aliases : List (Str × Str)) (rule : Str)
+    (r : Str × List (Nat × Field)) (h : ruleSource P aliases rule = .ok r) :
+    ¬ HasCycleFrom P aliases rule := by
+  unfold ruleSource at h
+  obtain ⟨c, hc, _⟩ := bind_eq_ok h
+  rintro ⟨w, hw, hnd⟩
+  exact hnd (expansion_ok_walks P aliases _ rule _ _ hc w hw).2
+
+/-- the same at the level of a compiled rule. -/
+theorem compiled_acyclic (P : Prims) (E : Engine) (lib aliases : List (Str × Str)) (rule : Str)
+    (r : Rule E) (h : compileRule P E lib aliases rule = .ok r) : ¬ HasCycleFrom P aliases rule := by
+  unfold compileRule at h
+  obtain ⟨sf, hsf, _⟩ := bind_eq_ok h
+  exact accepted_acyclic P aliases rule sf hsf
+
+/-- (i-c) the circular-dependency error is only raised for a reachable cycle, and the alias it
+    names (`alias_stack.first()`) is the first alias of a walk into that cycle — a reference of the
+    rule itself, not necessarily a member of the cycle. -/
+theorem circular_has_cycle (P : Prims) (aliases : List (Str × Str)) (rule x : Str)
+    (h : ruleSource P aliases rule = .err (.circular x)) :
+    HasCycleFrom P aliases rule ∧ ∃ w, Walk P aliases rule w ∧ ¬ w.Nodup ∧ w.head? = some x := by
+  unfold ruleSource at h
+  have hc : parseRuleF P aliases (aliases.length + 1) rule Ctx.empty = .err (.circular x) := by
+    cases hp : parseRuleF P aliases (aliases.length + 1) rule Ctx.empty <;> simp [hp] at h
+    subst h; rfl
+  obtain ⟨w, pre, last, hw, hweq, hlast, hx⟩ := expansion_circular_walk P aliases _ rule _ x hc
+  have hnd : ¬ w.Nodup := by
+    subst hweq
+    simp only [Ctx.empty, List.nil_append] at hlast
+    intro hn
+    have := (List.nodup_append.mp hn).2.2 last hlast last (by simp)
+    exact this rfl
+  refine ⟨⟨w, hw, hnd⟩, w, hw, hnd, ?_⟩
+  subst hweq
+  simp only [Ctx.empty, List.nil_append] at hx
+  cases pre <;> simp_all
 
 /-! ## (iii) a literal-only rule matches exactly its own text -/
 
